@@ -43,15 +43,21 @@ def derivative(poly: PolyLike, *diffvars: Union[ndpoly, str, int]) -> ndpoly:
             idx = diffvar
         else:
             diffvar = numpoly.aspolynomial(diffvar)
-            # retained all-zero terms must not count as extra indeterminants.
-            exponents, _ = numpoly.remove_redundant_coefficients(
+            # retained all-zero terms must not count as extra indeterminants
+            # (the constant term is stored even when it is zero).
+            exponents, coefficients = numpoly.remove_redundant_coefficients(
                 diffvar.exponents, diffvar.coefficients
             )
+            exponents = exponents[
+                [bool(numpy.any(coefficient)) for coefficient in coefficients]
+            ]
             exponents, names = numpoly.remove_redundant_names(
                 exponents, diffvar.names
             )
             assert names is not None and len(names) == 1, "one at the time"
-            assert numpy.all(exponents == 1), "derivative variable assumes singletons"
+            assert len(exponents) == 1 and numpy.all(
+                exponents == 1
+            ), "derivative variable assumes singletons"
             idx = poly.names.index(names[0])
 
         exponents = poly.exponents
